@@ -797,11 +797,16 @@ HARNESSES = [
 ]
 
 MANIFEST = {
-    'engine': 'symx',
-    'technique': 'symbolic execution (CrossHair engine + z3 strings) of the real comparison/hash methods on symbolic name/module '
-                 'strings; solver-enumerated string pool on both builds; cross-process sort',
-    'text': 'S tier: every path of _compare/__lt__.../__eq__/__hash__ for all name/module strings up to the length bound is explored '
-            '(one path covers all strings taking it), against a lexicographic oracle. The C rich-compare is run on a solver-enumerated '
-            'pool of corner-case strings in a fresh build.',
-    'note': 'Trusted: CrossHair string model and z3; builtin hash treated as an uninterpreted function.',
+    'engine': 'symx+irsym',
+    'technique': 'symbolic execution: (1) Engine C functional mode - every path of the LLVM IR of IB_richcompare / IB__hash__ (current C source) '
+                 'with name/module as z3 String terms of unbounded length and the operator as a z3 Int; per path `path condition and result != '
+                 '(name, module) tuple order` is discharged by z3, then order laws (trichotomy, reflection, negation, transitivity, == iff equal '
+                 'strings) over the disjunction of the summaries, hash memo invariant inductive; counterexample strings replayed on the C build; '
+                 '(2) CrossHair engine + z3 strings on the real Python comparison/hash methods with symbolic name/module (|s| <= 3); '
+                 '(3) solver-enumerated string pool on both builds; cross-process sort',
+    'text': 'The C comparison is decided for all strings (no length bound) and all six operators on every IR path; the Python comparison for '
+            'all strings up to the length bound on every path of _compare/__lt__.../__eq__/__hash__ (one path covers all strings taking it), '
+            'against a lexicographic oracle; mixed kinds, real hash() and process independence on a solver-enumerated pool in fresh builds.',
+    'note': 'Trusted: z3 string theory, the C-API contract stubs of ir_compare (evidence lists them), CrossHair string model; builtin hash treated '
+            'as an uninterpreted function.',
 }
